@@ -1191,6 +1191,10 @@ func getExternalLintV1Beta1V1ForLintConfig(lintConfig LintConfig, moduleDirPath 
 	externalLint.Use = lintConfig.UseIDsAndCategories()
 	externalLint.Except = lintConfig.ExceptIDsAndCategories()
 	externalLint.Ignore = slicesext.Map(lintConfig.IgnorePaths(), joinDirPath)
+	if lintConfig.Disabled() {
+		// A disabled config is one whose ignores name the module directory itself.
+		externalLint.Ignore = []string{moduleDirPath}
+	}
 	externalLint.IgnoreOnly = make(map[string][]string, len(lintConfig.IgnoreIDOrCategoryToPaths()))
 	for idOrCategory, importPaths := range lintConfig.IgnoreIDOrCategoryToPaths() {
 		externalLint.IgnoreOnly[idOrCategory] = slicesext.Map(importPaths, joinDirPath)
@@ -1214,6 +1218,10 @@ func getExternalLintV2ForLintConfig(lintConfig LintConfig, moduleDirPath string)
 	externalLint.Use = lintConfig.UseIDsAndCategories()
 	externalLint.Except = lintConfig.ExceptIDsAndCategories()
 	externalLint.Ignore = slicesext.Map(lintConfig.IgnorePaths(), joinDirPath)
+	if lintConfig.Disabled() {
+		// A disabled config is one whose ignores name the module directory itself.
+		externalLint.Ignore = []string{moduleDirPath}
+	}
 	externalLint.IgnoreOnly = make(map[string][]string, len(lintConfig.IgnoreIDOrCategoryToPaths()))
 	for idOrCategory, importPaths := range lintConfig.IgnoreIDOrCategoryToPaths() {
 		externalLint.IgnoreOnly[idOrCategory] = slicesext.Map(importPaths, joinDirPath)
@@ -1237,6 +1245,10 @@ func getExternalBreakingForBreakingConfig(breakingConfig BreakingConfig, moduleD
 	externalBreaking.Use = breakingConfig.UseIDsAndCategories()
 	externalBreaking.Except = breakingConfig.ExceptIDsAndCategories()
 	externalBreaking.Ignore = slicesext.Map(breakingConfig.IgnorePaths(), joinDirPath)
+	if breakingConfig.Disabled() {
+		// A disabled config is one whose ignores name the module directory itself.
+		externalBreaking.Ignore = []string{moduleDirPath}
+	}
 	externalBreaking.IgnoreOnly = make(map[string][]string, len(breakingConfig.IgnoreIDOrCategoryToPaths()))
 	for idOrCategory, importPaths := range breakingConfig.IgnoreIDOrCategoryToPaths() {
 		externalBreaking.IgnoreOnly[idOrCategory] = slicesext.Map(importPaths, joinDirPath)
